@@ -379,15 +379,6 @@ def check_line_position(ctx):
   if not sites:
     raise AnalysisError(f"{f.qualname}: no set_line call found")
   recv = unparse(sites[0].func.value)
-  # the statement (if-chain) that holds every set_line call
-  top = None
-  for st in own_nodes(f.node):
-    if isinstance(st, ast.If) and all(any(x is c for x in ast.walk(st)) for c in sites):
-      top = st      # innermost such if is found last in pre-order? keep the smallest
-  cands = [st for st in own_nodes(f.node) if isinstance(st, ast.If) and all(any(x is c for x in ast.walk(st)) for c in sites)]
-  top = min(cands, key=lambda st: len(list(ast.walk(st)))) if cands else None
-  if top is None:
-    raise AnalysisError(f"{f.qualname}: the display-align dispatch that sets the cue line was not found")
   # locals holding the region's displayAlign / position / extent
   roles = {}
   for st in own_nodes(f.node):
@@ -398,7 +389,19 @@ def check_line_position(ctx):
   if not {"DisplayAlign", "Position", "Extent"} <= set(roles):
     raise AnalysisError(f"{f.qualname}: locals for DisplayAlign / Position / Extent not found ({sorted(roles)})")
   da, pos, ext = roles["DisplayAlign"], roles["Position"], roles["Extent"]
-  body = match.replace_exprs([top], {f"{pos}.v_offset.value": "__y", f"{ext}.height.value": "__h"})
+  # the display-align dispatch: the outermost `if` that tests the displayAlign local, and what follows it in the same
+  # statement list up to the last set_line / set_align call (the calls may sit in the branches or after the chain)
+  disp = [st for st in own_nodes(f.node) if isinstance(st, ast.If) and any(isinstance(n, ast.Name) and n.id == da for n in ast.walk(st.test))]
+  disp = [st for st in disp if not any(o is not st and any(x is st for x in ast.walk(o)) for o in disp)]
+  if len(disp) != 1:
+    raise AnalysisError(f"{f.qualname}: the display-align dispatch that sets the cue line was not found")
+  top = disp[0]
+  blk = next(getattr(parent(top), fld) for fld in ("body", "orelse", "finalbody") if isinstance(getattr(parent(top), fld, None), list) and any(x is top for x in getattr(parent(top), fld)))
+  k0 = next(k for k, x in enumerate(blk) if x is top)
+  k1 = max([k for k, x in enumerate(blk) if k >= k0 and any(isinstance(c, ast.Call) and isinstance(c.func, ast.Attribute) and c.func.attr in ("set_line", "set_align") for c in ast.walk(x))] or [k0])
+  if not all(any(any(x is c for x in ast.walk(st)) for st in blk[k0:k1 + 1]) for c in sites):
+    raise AnalysisError(f"{f.qualname}: a set_line call lies outside the display-align dispatch")
+  body = match.replace_exprs(blk[k0:k1 + 1], {f"{pos}.v_offset.value": "__y", f"{ext}.height.value": "__h"})
   ce = ConstEval(ix)
   dat = ix.cls("ttconv.style_properties:DisplayAlignType")
   wrong, n = [], 0
